@@ -208,6 +208,7 @@ def parent_main(args):
     open_kf = [e for e in known if e.get('status') == 'open']
     lines = []
     real = []  # unattributed violations
+    real_more = 0
     attributed = {}
     # witnesses
     kf_lines = []
@@ -233,10 +234,12 @@ def parent_main(args):
             if kf_matches(e, v):
                 hit = e['id']
                 break
+        more = v.pop('more', 0) or 0  # further violations of the same group in that worker, counted but not stored
         if hit:
-            attributed[hit] = attributed.get(hit, 0) + 1
+            attributed[hit] = attributed.get(hit, 0) + 1 + more
         else:
             real.append(v)
+            real_more += more
 
     # ---- replay files for unattributed violations (deduplicated by mechanism)
     viol_lines = []
@@ -274,7 +277,7 @@ def parent_main(args):
         'known_findings_printed': [ln.split()[2] for ln in kf_lines],
         'known_findings_stale': stale,
         'violations_attributed_to_known_findings': attributed,
-        'unattributed_violations': len(real) + overflow,
+        'unattributed_violations': len(real) + real_more + overflow,
         'workers': nworkers,
         'repo': core.REPO,
         'notes': notes[:50],
@@ -291,7 +294,7 @@ def parent_main(args):
         'coverage': coverage,
         'assumptions': list(getattr(mod, 'ASSUMPTIONS', [])),
         'wall_s': round(time.time() - t0, 2),
-        'violations': len(real) + overflow,
+        'violations': len(real) + real_more + overflow,
     }
     os.makedirs(EVID_DIR, exist_ok=True)
     with open(os.path.join(EVID_DIR, prop + '.json'), 'w', encoding='utf-8') as f:
@@ -308,7 +311,7 @@ def parent_main(args):
     except Exception:
         pass
     if viol_lines:
-        print('FAILED property=%s unattributed_violations=%d evaluations=%d' % (prop, len(real) + overflow, evaluations))
+        print('FAILED property=%s unattributed_violations=%d evaluations=%d' % (prop, len(real) + real_more + overflow, evaluations))
         return 1
     if problems or unmet or evaluations == 0 or len(distinct) < 2:
         why = '; '.join(problems)[:1500] or ('minimum events not reached: %s' % unmet)
